@@ -22,8 +22,16 @@ type receivePayloadQueue struct {
 func newReceivePayloadQueue(maxTSNOffset uint32) *receivePayloadQueue {
 	maxTSNOffset = ((maxTSNOffset + 63) / 64) * 64
 
+	// The bitmap is a ring indexed by (tsn/64) % len(tsnBitmask). The number of
+	// words must be a power of two (a divisor of 2^26), otherwise two TSNs inside
+	// the window map to the same bit when the window straddles the 2^32 wrap.
+	words := uint32(1)
+	for words < maxTSNOffset/64 {
+		words <<= 1
+	}
+
 	return &receivePayloadQueue{
-		tsnBitmask:   make([]uint64, maxTSNOffset/64),
+		tsnBitmask:   make([]uint64, words),
 		maxTSNOffset: maxTSNOffset,
 	}
 }
